@@ -926,6 +926,17 @@ def run_impl(case):
     return res
 
 
+def _json_doc(w):
+    """wire value of a JSON document: every object key is a string, at every level (Sch.jsonDoc)"""
+    if isinstance(w, dict):
+        if "m" in w:
+            return all(isinstance(k, str) and _json_doc(v) for k, v in w["m"])
+        if "l" in w:
+            return all(_json_doc(x) for x in w["l"])
+        return "f" in w
+    return w is None or isinstance(w, (bool, int, str))
+
+
 def _match(p, s):
     try:
         return re.match(p, s) is not None
@@ -1500,8 +1511,8 @@ def oracle(case, impl, model):
         hs_ok = all((not sr) or _match(p, t) for p, t, sr in impl.get("search", []) if p.startswith("^"))
         for bi, (dj, r, ck) in enumerate(todo):
             if r.get("valid") and "err" in r.get("deser", {}) and model.get("inExact") and hs_ok \
-                    and not uses_mixin_enum(case) and isinstance(dj, dict) and "m" in dj \
-                    and all(isinstance(k, str) for k, _ in dj["m"]):
+                    and model.get("refsFaithful") and not uses_mixin_enum(case) and isinstance(dj, dict) \
+                    and "m" in dj and _json_doc(dj):
                 fails.append(("exact:inside-the-proved-region",
                               "schema_exact_class_partial covers this (class, document), yet the real Deserializer rejects a document "
                               f"the real schema admits ({r['deser']['err']}: {r['deser'].get('msg')}): " + json.dumps(dj)[:250]))
